@@ -118,6 +118,8 @@ pub enum Ev {
   BuEnd,
   /// A bottom-up build that received its report was dropped without being run.
   BuDropped,
+  /// An aborted build was caught inside the session; the same session is used further.
+  Continue,
   ExecStart { t: Tid, n: u32, bottom_up: bool },
   ExecEnd { t: Tid, n: u32, out: Out },
   OpStart { t: Tid, n: u32, pos: u32, op: OpK, target: Target },
